@@ -70,6 +70,14 @@ let read_uri (f : string array) (pos : int ref) : uri =
     (match parse (text_of_field_nn (next ())) with
      | POk u -> u
      | PSyntax _ -> raise (Arg_parse_error 1))
+  | "S" ->   (* a view [off, off+len) of a text; the C driver shares one buffer between such views, the model has values *)
+    let t = text_of_field_nn (next ()) in
+    let off = int_of_string (next ()) in let len = int_of_string (next ()) in
+    let rec drop n l = if n <= 0 then l else (match l with [] -> [] | _ :: r -> drop (n - 1) r) in
+    let rec take n l = if n <= 0 then [] else (match l with [] -> [] | x :: r -> x :: take (n - 1) r) in
+    (match parse (take len (drop off t)) with
+     | POk u -> u
+     | PSyntax _ -> raise (Arg_parse_error 1))
   | _ ->
     let scheme = text_of_field (next ()) in
     let userInfo = text_of_field (next ()) in
